@@ -117,6 +117,10 @@ def alphabet(tier):
     add(app(('abs', 'x', A, app(f, ('b', 0))), y))
     add(app(('abs', 'x', A, ('abs', 'y', A, eq(('b', 1), ('b', 0), A))), y))
     add(app(('abs', 'x', BOOL, imp(('b', 0), p)), xb))
+    # redexes whose body mentions the same sub-term under different binder depths (rule arguments are built as maximally shared
+    # objects, so `f (Bound 0)` below is ONE python object standing for x in one place and for y in the other)
+    add(app(('abs', 'x', A, imp(app(f, ('b', 0)), app(ALL(A), ('abs', 'y', A, app(f, ('b', 0)))))), x))
+    add(app(('abs', 'x', A, app(ALL(A), ('abs', 'y', A, imp(app(f, ('b', 0)), app(f, ('b', 1)))))), y))
     # adversarial: free variables named like the logical constants (must not be read as the connectives)
     vimp = v('implies', funs(BOOL, BOOL, BOOL))
     veq = v('equals', funs(A, A, BOOL))
@@ -233,13 +237,19 @@ def node_from_desc(d):
     return Node(d['rule'], arg, [node_from_desc(p) for p in d['prems']])
 
 
+def shared_term(t):
+    """holpy object for a reference term in which equal sub-terms are the same python object"""
+    from mc.props import c03
+    return c03.to_term_shared(t, {})
+
+
 def build_arg(arg):
     from kernel.term import Inst
     from kernel.type import TyInst
     if arg is None:
         return None
     if arg[0] == 't':
-        return ref.to_term(arg[1])
+        return shared_term(arg[1])
     if arg[0] == 'n':
         return arg[1]
     if arg[0] == 'ty':
@@ -289,7 +299,7 @@ class Explorer:
     def hterm(self, t):
         h = self.hterms.get(t)
         if h is None:
-            h = ref.to_term(t)
+            h = shared_term(t)
             self.hterms[t] = h
         return h
 
